@@ -17,7 +17,7 @@ CHECKS = {
  "C09": ("exploration", "a body-bearing request (Content-Length 1..140000, thorough 200000, or chunked with generated chunking; optionally expecting; optionally held back by the client until the server has answered) at position 0..2 of a pipeline whose handler consumes a generated prefix (nothing, an empty read, exactly k, to the end) and finishes by respond/drop/raw writer, followed by 1-3 spiced marker requests under generated segmentation, plus mixed-feature conversations; the markers are delivered with exactly the heads sent and answered, nothing else is delivered", "conversation oracle against the reference request model"),
  "C11": ("exploration", "pipelines of 2..8 requests; (A) all bodies absent or <= 1024 B and the application collects all n before answering any, on one thread calling recv, on one thread polling with try_recv around 0-2 unblock calls, or with one blocked thread per request each holding its request for a virtual second; (B) a streamed body is read to its end (or the request answered/dropped unread) and the request kept for 1 virtual second while the successor must already be obtainable; a collector still blocked at quiescence is the violation", "quiescence (deadlock) detection + virtual-time ordering"),
  "C13": ("fault_enumeration", "fault = segmentation: for each of ~40 corpus conversations every single split point (with and without a virtual pause), one-byte-at-a-time, and random multi-way splits; delivered requests (heads, bodies) and the Date-normalised response stream must equal the unsplit delivery's. The single-cut space of the corpus is enumerated completely; schedules are sampled", "metamorphic comparison with the unsplit run, enumerated cut points"),
- "C14": ("exploration", "hostile heads/bodies (Content-Length 256 MiB..usize::MAX with few bytes sent, chunk sizes to and beyond 16 hex digits, thousands of headers, MiB-long lines, control/non-ASCII bytes, missing/bare-LF line ends, TE lists with NaN/inf/garbage weights, uninterrupted runs of up to 20000 refused-version requests or 2000 ordinary ones on one connection against std-size thread stacks, truncation, connect-and-reset without a byte) delivered whole or byte-wise, crossed with handlers reading none/some/all then respond/drop; no panic outside application code (process-wide hook), no process death (orchestrator), largest single allocation and live-heap growth bounded by the bytes actually sent (counting global allocator that refuses > 1 GiB)", "crash/abort observation + counting allocator seam"),
+ "C14": ("exploration", "hostile heads/bodies (Content-Length 256 MiB..usize::MAX with few bytes sent, chunk sizes to and beyond 16 hex digits, thousands of headers, MiB-long lines, control/non-ASCII bytes, missing/bare-LF line ends, TE lists with NaN/inf/garbage weights, uninterrupted runs of up to 8000 refused-version requests or 2000 ordinary ones on one connection against std-size thread stacks, truncation, connect-and-reset without a byte) delivered whole or byte-wise, crossed with handlers reading none/some/all then respond/drop; no panic outside application code (process-wide hook), no process death (orchestrator), largest single allocation and live-heap growth bounded by the bytes actually sent (counting global allocator that refuses > 1 GiB)", "crash/abort observation + counting allocator seam"),
  "C15": ("fault_enumeration", "fault = the client vanishing: for each corpus conversation every prefix length of the client's byte stream followed by half-close, full close (post-close write budget and error kind seeded) or reset, plus response-side vanishing (client gone before/after m response bytes, or not reading behind a small window); incomplete requests never delivered, complete ones delivered and answered after an orderly close, delivered set a prefix after a reset, respond returns Ok, nobody blocks for ever, no library panic, a fresh connection is served. The (conversation, prefix, kind) space is enumerated completely; schedules are sampled", "crash-point enumeration with the conversation oracle"),
  "C18": ("exploration", "Expect: 100-continue present/absent (any case) x body length {0,5,1024,1025,5000} framed by Content-Length or chunked x programs {answer without reading, as_reader once/three times, partial read, read to EOF; finished by respond, raw writer or drop} x a client that withholds the body until it sees the interim response or not, pipelined before/after ordinary requests or followed by a second expecting request answered on another thread while the first is still busy; exactly one 100 iff the body was asked for, never before it was asked for, before the final response of the same request; a client waiting for 100 while the server waits for the body is a visible two-party deadlock", "wire oracle + write stamps (event sequence) + two-party deadlock detection"),
  "C19": ("exploration", "ONLY the Date clause depends on something the simulator controls (the wall-clock seam: virtual dates 1970..9998, leap days, roll-overs, jumps and sub-second gaps between up to four responses of one thread; Date must be the IMF-fixdate of the virtual instant of the respond call). The remaining clauses (protected names never sent, Content-Length only sets the length, last Content-Type wins, application headers once each in order, one Server/Date unless supplied, constructors from_string/from_data/from_file/empty/new declare the byte length incl. multi-byte UTF-8, with_data at any point of the header sequence; the automatic response for a request dropped unanswered or by a panicking handler carries one Date and one Server too) are evaluated by the same wire oracle on the same runs with seeded header lists; for them the simulation is a vehicle, not the deciding power", "virtual wall-clock seam + wire header oracle"),
